@@ -131,6 +131,13 @@ func run(repo, out string) error {
 		return err
 	}
 	sort.Strings(dirs)
+	// sources of nondeterminism that no seam owns are reported (the runner records them as a cap)
+	var unowned []site
+	for _, d := range dirs {
+		for _, pf := range byDir[d] {
+			unowned = append(unowned, unownedSites(fset, pf)...)
+		}
+	}
 	// map iteration order first (it needs the types of the unmodified syntax trees)
 	orderSites, orderNote := mapOrderSeam(repo, fset, dirs, byDir)
 	for _, d := range dirs {
@@ -179,7 +186,8 @@ func run(repo, out string) error {
 	}
 	sort.Slice(sites, less(sites))
 	sort.Slice(orderSites, less(orderSites))
-	sb, _ := json.MarshalIndent(map[string]any{"clock_sites": sites, "map_range_sites": orderSites, "map_order_seam": orderNote}, "", " ")
+	sort.Slice(unowned, less(unowned))
+	sb, _ := json.MarshalIndent(map[string]any{"clock_sites": sites, "map_range_sites": orderSites, "map_order_seam": orderNote, "unowned_nondeterminism_sites": unowned}, "", " ")
 	return os.WriteFile(filepath.Join(out, "clock_sites.json"), sb, 0o644)
 }
 
@@ -380,4 +388,52 @@ func addImport(f *ast.File, path, name string) {
 	gd := &ast.GenDecl{Tok: token.IMPORT, Specs: []ast.Spec{spec}}
 	f.Decls = append([]ast.Decl{gd}, f.Decls...)
 	f.Imports = append(f.Imports, spec)
+}
+
+// unownedSites lists what would make the library's behaviour depend on something neither the scheduler (C19) nor a seam
+// decides: goroutines started by the library, select statements, random numbers, timers and sleeps, reflection's map
+// iteration, process environment.
+func unownedSites(fset *token.FileSet, pf *parsed) (out []site) {
+	imports := map[string]string{} // local name -> path
+	for _, is := range pf.f.Imports {
+		p, _ := strconv.Unquote(is.Path.Value)
+		name := filepath.Base(p)
+		if is.Name != nil {
+			name = is.Name.Name
+		}
+		imports[name] = p
+	}
+	add := func(n ast.Node, what string) {
+		pos := fset.Position(n.Pos())
+		out = append(out, site{Pkg: filepath.ToSlash(filepath.Dir(pf.rel)), File: filepath.Base(pf.rel), Line: pos.Line, What: what})
+	}
+	bad := map[string]map[string]bool{
+		"math/rand":    nil,
+		"math/rand/v2": nil,
+		"crypto/rand":  nil,
+		"time":         {"Sleep": true, "After": true, "AfterFunc": true, "Tick": true, "NewTimer": true, "NewTicker": true},
+		"os":           {"Getenv": true, "LookupEnv": true, "Environ": true, "Hostname": true, "Getpid": true, "Getwd": true},
+		"runtime":      {"NumGoroutine": true, "GOMAXPROCS": true, "NumCPU": true, "Gosched": true},
+	}
+	ast.Inspect(pf.f, func(n ast.Node) bool {
+		switch x := n.(type) {
+		case *ast.GoStmt:
+			add(x, "go statement")
+		case *ast.SelectStmt:
+			add(x, "select statement")
+		case *ast.SelectorExpr:
+			if id, ok := x.X.(*ast.Ident); ok && id.Obj == nil {
+				if p, ok := imports[id.Name]; ok {
+					if names, listed := bad[p]; listed && (names == nil || names[x.Sel.Name]) {
+						add(x, p+"."+x.Sel.Name)
+					}
+				}
+			}
+			if x.Sel.Name == "MapRange" || x.Sel.Name == "MapKeys" {
+				add(x, "reflect map iteration (."+x.Sel.Name+")")
+			}
+		}
+		return true
+	})
+	return out
 }
